@@ -78,6 +78,12 @@ def warm() -> None:
 
 
 def gen_op(rng, s) -> Dict[str, Any]:
+    if rng.random() < 0.006:
+        # sizes above what the small workloads reach: more than 1024 tasks in one expansion step / more than 256 rows
+        if rng.random() < 0.5:
+            return {"op": "crn_big", "s": s(), "workers": rng.choice([2, 3, 8])}
+        return {"op": "validate_big", "s": s(), "n_rows": rng.choice([300, 520]), "n_jobs": rng.choice([2, 3, 4]),
+                "method": rng.choice(["RC", "ITS"]), "p_ok": rng.choice([0.5, 0.9])}
     c = rng.random()
     n_rules = len(_corpus()["rule_names"])
     if c < 0.3:
@@ -194,6 +200,10 @@ def exec_op(op: Dict[str, Any], sim: Sim, world, pristine) -> None:
             _balance(op, sim, world, pristine)
         elif k == "crn":
             _crn(op, sim, world, pristine)
+        elif k == "crn_big":
+            _crn_big(op, sim, world, pristine)
+        elif k == "validate_big":
+            _validate_big(op, sim, world, pristine)
         else:
             sim.event("noop", None)
     except TerminatedWorkerError:
@@ -357,6 +367,64 @@ def _crn(op: Dict[str, Any], sim: Sim, world, pristine) -> None:
     species = sorted(d.get("smiles_nomap") for _, d in g_par.nodes(data=True) if d.get("kind") == "species")
     sim.state(("crn", op["setup"], op["repeats"], explicit, len(species)))
     sim.event("crn", {"species": species, "rxn": sum(1 for _, d in g_par.nodes(data=True) if d.get("kind") == "rxn")})
+
+
+# 52 seeds: 49 alkanes that never react + a di-acid and two alcohols (mono-esters in step 1, di-esters only in step 2)
+_INERT = (["C" * n for n in range(1, 11)] + ["C1CC1", "C1CCC1", "C1CCCC1", "C1CCCCC1", "C1CCCCCC1", "C1CCCCCCC1"] +
+          ["CF", "CCF", "CCCF", "CCCCF", "CCl", "CCCl", "CCCCl", "CCCCCl", "CBr", "CCBr", "CCCBr", "CCCCBr"] +
+          ["COC", "CCOC", "CCOCC", "COCC(C)C", "CC#N", "CCC#N", "C=C", "CC=C", "CC=CC", "C=CC=C", "CN(C)C", "CCN(C)C"] +
+          ["c1ccccc1", "Cc1ccccc1", "FC(F)F", "ClC(Cl)Cl", "CSC", "CCSC", "CC(C)=O", "CCC(C)=O", "C#C"])
+BIG_SEEDS = list(_INERT) + ["OC(=O)CC(=O)O", "CO", "CCO"]
+
+
+def _crn_big(op: Dict[str, Any], sim: Sim, world, pristine) -> None:
+    C = _corpus()
+    rl = [C["rules"]["esterification"]]
+    seeds = list(BIG_SEEDS)
+
+    def mk() -> SynCRN:
+        return SynCRN(rules=list(rl), repeats=2, explicit_h=True, implicit_temp=False, strategy="bt")
+
+    g_par = mk().build(list(seeds), parallel=True, max_workers=op["workers"])
+    sim.probe("crn_step_with_more_than_1024_tasks")
+    key = ("big", 2)
+    with pristine:
+        if key not in _CRN:
+            _CRN[key] = _graph_sig(mk().build(list(seeds), parallel=False))
+        want = _CRN[key]
+    got = _graph_sig(g_par)
+    if got != want:
+        raise Violation(PROP, "SynCRN.build", "parallel_differs_from_serial", "more than 1024 tasks in one step",
+                        {"nodes_par": g_par.number_of_nodes(), "nodes_ser": len(want[0]), "workers": op["workers"]})
+    sim.state(("crn_big", len(want[0])))
+    sim.event("crn_big", {"nodes": g_par.number_of_nodes()})
+
+
+def _validate_big(op: Dict[str, Any], sim: Sim, world, pristine) -> None:
+    r = _random.Random(op.get("s", 0))
+    good = [(gt, _renumber(gt, 3)) for gt, _ in TAUT_PAIRS] + [(gt, gt) for gt, _ in AROM_PAIRS]
+    bad = list(TAUT_PAIRS) + list(AROM_PAIRS)
+    data = []
+    for _ in range(op["n_rows"]):
+        gt, m = r.choice(good) if r.random() < op["p_ok"] else r.choice(bad)
+        data.append({"ground_truth": gt, "m1": m})
+    with pristine:
+        want = [bool(_serial_check(d["m1"], d["ground_truth"], op["method"], True, False)) for d in data]
+    res = AAMValidator.validate_smiles(data, "ground_truth", ["m1"], op["method"], False, op["n_jobs"], 0, True)
+    sim.probe("validate_more_than_256_rows")
+    got = [bool(x) for x in res[0]["results"]]
+    if got != want:
+        raise Violation(PROP, "AAMValidator.validate_smiles", "parallel_differs_from_serial", "n_jobs>1, more than 256 rows", {"n": len(data)})
+    acc = round(100 * (sum(want) / len(want)), 2)
+    if abs(float(res[0]["accuracy"]) - acc) > 1e-9:
+        raise Violation(PROP, "AAMValidator.validate_smiles", "accuracy_mismatch", "n_jobs>1, more than 256 rows",
+                        {"got": res[0]["accuracy"], "want": acc, "rows": len(data), "n_jobs": op["n_jobs"]})
+    ser = AAMValidator.validate_smiles(data, "ground_truth", ["m1"], op["method"], False, 1, 0, True)
+    if ser[0]["accuracy"] != res[0]["accuracy"] or ser[0].get("success_rate") != res[0].get("success_rate"):
+        raise Violation(PROP, "AAMValidator.validate_smiles", "parallel_differs_from_serial", "summary figures, more than 256 rows",
+                        {"serial": [ser[0]["accuracy"], ser[0].get("success_rate")], "parallel": [res[0]["accuracy"], res[0].get("success_rate")]})
+    sim.state(("validate_big", op["n_rows"], op["n_jobs"]))
+    sim.event("validate_big", {"n": len(data), "true": sum(want)})
 
 
 # ---------------------------------------------------------------------------
